@@ -19,8 +19,8 @@ def slotVal (defs : Defs) (r : Nat) : Except String Value :=
 /-- the evaluation environment of `eval_simple` -/
 def simpleEnv (d : Decls) (defs : Defs) : EvalEnv :=
   { var := fun level path =>
-      if level == 0 && (path.head? == some "$" || path.head? == some "pc") then .ok .unknown
-      else if level == 0 && (match path.head? with | some n => isAsmBuiltinName n | none => false) then
+      if level == 0 && (path == ["$"] || path == ["pc"]) then .ok .unknown
+      else if level == 0 && (match path with | [n] => isAsmBuiltinName n | _ => false) then
         .ok (.asmBuiltin (path.head?.getD ""))
       else match d.symbols.tryGetByName [] level path with
         | some r => slotVal defs r
